@@ -19,7 +19,7 @@ fn main() {
     let mut out = BufWriter::new(f);
     match family {
         "integer" => integer::run(&mut out, seed, thorough),
-        "vamm" | "feed" | "auth" | "c14" | "faults" | "twin" => {
+        "vamm" | "feed" | "auth" | "c14" | "faults" | "twin" | "forge" => {
             let n: usize = args.get(5).and_then(|s| s.parse().ok()).unwrap_or(if thorough { 40 } else { 10 });
             match family {
                 "vamm" => families::run_vamm(&mut out, seed, thorough, n),
@@ -27,6 +27,7 @@ fn main() {
                 "auth" => families::run_auth(&mut out, seed, thorough, n),
                 "c14" => families::run_c14(&mut out, seed, thorough, n),
                 "faults" => families::run_faults(&mut out, seed, thorough, n),
+                "forge" => families::run_forge(&mut out, seed, thorough, n),
                 _ => families::run_twin(&mut out, seed, thorough, n),
             }
         }
